@@ -428,7 +428,11 @@ def run_check(pid, tier, seed, replay):
             if not run.get("no_model"):
                 if res.get("drc", 0) != 0:
                     failures.append({"kind": "correspondence", "name": "driver failed", "detail": res.get("derr", "")[-500:]})
-                i = first_diff(impl, model)
+                ntok = run.get("cmp_tokens")
+                if ntok:   # the model predicts only the first tokens of each observation (the rest is diagnostic detail)
+                    i = first_diff([" ".join(x.split()[:ntok]) for x in impl], [" ".join(x.split()[:ntok]) for x in model])
+                else:
+                    i = first_diff(impl, model)
                 if i is None:
                     traces += len(seqs)
                 else:
@@ -454,6 +458,7 @@ def run_check(pid, tier, seed, replay):
     #    the detector of known findings)
     oracle = P.get("oracle")
     predicted = {}   # (model run, seed) -> {(line, signature)} the Lean model of the UNCHANGED code itself exhibits
+    coarse = set()   # runs whose model predicts only the leading tokens: compare (line, signature) only
     if oracle:
         for (run, s, ops, impl, model) in all_runs:
             try:
@@ -469,8 +474,11 @@ def run_check(pid, tier, seed, replay):
             # DIFFERENT violation (same symptom class, other cause) and is reported with its input.
             if not run.get("no_model") and len(model) == len(ops) and model is not impl:
                 try:
-                    predicted[(run["model"], s)] = {(mv["detail"].get("line"), mv["signature"], json.dumps(mv["detail"], sort_keys=True, default=str))
+                    predicted[(run["model"], s)] = {(mv["detail"].get("line"), mv["signature"],
+                                                     "" if run.get("cmp_tokens") else json.dumps(mv["detail"], sort_keys=True, default=str))
                                                     for mv in oracle(run, ops, model) if isinstance(mv.get("detail"), dict)}
+                    if run.get("cmp_tokens"):
+                        coarse.add((run["model"], s))
                 except Exception:
                     pass
 
@@ -493,7 +501,8 @@ def run_check(pid, tier, seed, replay):
                 break
         key = (wv.get("model"), wv.get("seed"))
         if hit and key in predicted and isinstance(wv.get("detail"), dict) and wv["detail"].get("line") is not None \
-                and (wv["detail"]["line"], wv["signature"], json.dumps(wv["detail"], sort_keys=True, default=str)) not in predicted[key]:
+                and (wv["detail"]["line"], wv["signature"],
+                     "" if key in coarse else json.dumps(wv["detail"], sort_keys=True, default=str)) not in predicted[key]:
             wv["not_the_listed_finding"] = ("matches the pattern of %s, but the Lean model of the unchanged code does not fail in this "
                                             "way at this line of this history: a different violation" % hit["id"])
             unlisted.append(wv)
